@@ -131,6 +131,13 @@ nine caught at once, three after a workload extension, two not caught because wh
 the fourteen agents re-invented a slip of an earlier wave (`IOStats.Add` writing its receiver,
 the early `Release` in sha2pc twice, one bulk `rand.Read`, a weakened KOS comparison) - the space
 of small plausible breakages of these properties is being revisited rather than extended.
+A last round turned the exercise around (bug hunt, section 0): eight sub-agents looked for
+violations on the unchanged code. What they found, and the checks had not, was always a missing
+*shape*: array concatenation and index-through-pointer in streamed programs, a dirty result buffer
+for the packed-bit OT form (the label form had one), other-curve *values* handed to encoders (the
+decoders got other-curve bytes), 257 connections per pair (at most 4), files that no writer produces
+(a signature nested 1.5 million deep, a type name of a million bytes). Each shape is generated now,
+each fix has its reversal under `mutants/`, and each reversal is caught by the quick tier.
 
 ''' % (ordn[len(waves) - 1].capitalize(), len(rows), len(own), len(missed), len(rows), per_wave, ', '.join(m['name'] for m in notcaught))
 out += '''| change | property | what was changed | needs | clause that fires | missed at first? |
@@ -139,7 +146,7 @@ out += '''| change | property | what was changed | needs | clause that fires | m
 for m in rows:
     miss = ('yes: ' + m.get('strengthening', '')) if m['initially_missed'] else ('no' + (' (' + m['strengthening'] + ')' if m.get('strengthening') else ''))
     if m.get('rebased'):
-        miss += ' [patch rebased by hand onto the Conn.Fill fix a20f524; still caught]'
+        miss += ' [patch rebased by hand onto a later fix: commits and original in the meta; still caught]'
     if m.get('superseded'):
         miss += ' [superseded: ' + m['superseded'] + ']' 
     out += '| %s | %s | %s | %s | %s | %s |\n' % (m['name'], m['property'], m['change'].replace('|', '/'), m['needs_to_manifest'].replace('|', '/'), m['clause'], miss)
